@@ -2628,7 +2628,7 @@ func getVarDependencies(nod *node, sc *scope) (deps []*node) {
 		case n.kind != identExpr || n.sym == nil:
 		case n.sym.kind == funcSym:
 			fn = n.sym.node
-		case n.sym.kind == varSym && n.sym.global && n.sym.node != nod:
+		case n.sym.kind == varSym && n.sym.global:
 			deps = append(deps, n.sym.node)
 		}
 		if fn != nil && !seen[fn] {
